@@ -244,6 +244,9 @@ def r3_terminator(prog, rep: Report, fam: Family):
                     break
             if verdict is None:
                 continue
+            if verdict and strips == 0 and all(o.func.attr == "decode" for o in ops) and _under_no_terminator_guard(r):
+                rep.ok("C11.R3", f, "return", f"`{src(r)}` on the path where the line read does not end with '\\n': nothing to remove")
+                continue
             if verdict and strips == 0:
                 verdict = False
                 why.append("the terminator is never removed")
@@ -251,6 +254,36 @@ def r3_terminator(prog, rep: Report, fam: Family):
                       "; ".join(why) + f": {src(r.value)}",
                       scenario="a line 'x  ' or 'x\\r' (binary index: terminator is '\\n' only) loses its trailing "
                                "blanks / carriage return", line=r.lineno)
+
+
+def _under_no_terminator_guard(r: ast.Return) -> bool:
+    """`return v` reached only when `v.endswith("\\n")` is false: it follows, in its block, an `if v.endswith("\\n"): ... return`
+    without else, or sits in the else arm of such a test (v the returned name)"""
+    if not isinstance(r.value, ast.Name):
+        return False
+    v = r.value.id
+
+    def is_test(t) -> bool:
+        return isinstance(t, ast.Call) and isinstance(t.func, ast.Attribute) and t.func.attr == "endswith" and len(t.args) == 1 \
+            and isinstance(t.func.value, ast.Name) and t.func.value.id == v and const_value(t.args[0], None) in ("\n", b"\n")
+    child, par = r, getattr(r, "_parent", None)
+    while par is not None and not isinstance(par, (ast.FunctionDef, ast.AsyncFunctionDef)):
+        if isinstance(par, ast.If) and child in par.orelse and is_test(par.test):
+            return True
+        for fld in ("body", "orelse", "finalbody"):
+            blk = getattr(par, fld, None)
+            if isinstance(blk, list) and child in blk:
+                for prev in blk[:blk.index(child)]:
+                    if isinstance(prev, ast.If) and not prev.orelse and is_test(prev.test) and prev.body \
+                            and isinstance(prev.body[-1], (ast.Return, ast.Raise)):
+                        return True
+        child, par = par, getattr(par, "_parent", None)
+    if isinstance(par, (ast.FunctionDef, ast.AsyncFunctionDef)) and child in par.body:
+        for prev in par.body[:par.body.index(child)]:
+            if isinstance(prev, ast.If) and not prev.orelse and is_test(prev.test) and prev.body \
+                    and isinstance(prev.body[-1], (ast.Return, ast.Raise)):
+                return True
+    return False
 
 
 def r3b_raw_reader(prog, rep: Report, fam: Family):
